@@ -40,6 +40,8 @@ METAMODELS = {
     "special-matches": "Model: a=M1 b=M2 c=M3; M1: /[<>|{}]+/ | '\"' | '{'; M2: 'x|y' '<z>' | \"it's\"; M3: /\\\"[^\\\"]*\\\"/;",
     "abstract-chain": "Model: x=X; X: Y | Z; Y: Z | W; Z: 'z' v=INT; W: 'w' name=ID up=[X]?;",
     "single": "Model: 'only';",
+    # match rules referring to a cycle of other match rules (the export renders match rules recursively)
+    "match-cycle": "Model: v=Value w=Wrap; Value: 'v' Group; Group: '<' Inner '>' | ID; Inner: Group ('|' Group)*; Wrap: Value | Inner;",
 }
 _S = {}
 
@@ -253,6 +255,9 @@ def run(ctx):
     cases = [("model", w, s) for w in WHERE for s in strings(L)]
     if ctx.tier == "quick":
         cases += [("model", w, s) for w in ("object-name", "mixed-list") for s in strings(3) if len(s) == 3]
+    # long values (the export shortens long attribute values): each special character early and late in a 25-character string
+    longs = [c + "x" * 24 for c in CHARS if c != "a"] + ["x" * 9 + c + "x" * 15 for c in CHARS if c != "a"] + ["x" * 18 + c + c + "x" * 5 for c in CHARS if c not in "a\\"]
+    cases += [("model", w, s) for w in ("string-value", "string-list", "mixed-list", "object-name") for s in longs]
     cases += [("metamodel", n, via) for n in METAMODELS for via in ("api-dot", "gen-dot", "api-plantuml", "gen-plantuml")]
     cases += [("repo",) + c for c in REPO_CASES]
     ctx.pmap(work, [cases[i:i + 60] for i in range(0, len(cases), 60)])
